@@ -29,6 +29,7 @@ RULE = ("every combination of idle_timeout in {None, 4}, socket_timeout in {None
 RULE += ("  " + 'Also: exact small unsent remainders at close; speed limits (a chatty client and a steadily moving transfer are not given up); black-box bound for a stalled upload.')
 RULE += ("  " + 'Also (round 6): the silent peer stalls inside login sequences (password login, wrong password then right one, second USER, wrong password only).')
 RULE += ("  " + "Also: reply flood, then QUIT behind a blocked reply writer; a closed stream whose remainder the peer reads before the linger timer fires (nothing may reach the loop's exception handler).")
+RULE += ("  " + 'Also (round 8): data connections made some time (< socket_timeout) before their command, several in a row; idle_timeout only: flood, QUIT, silence.')
 ASSUMPTIONS = ["virtual time; commands are delivered in one segment (MSS 1460) so that 'arrival of the command line' is one event",
                "mapping of configured values to channel/direction as documented: idle_timeout = control reads, socket_timeout = "
                "everything else"]
